@@ -1,7 +1,7 @@
 (* C07: property theorems (see bin/propcfg/C07.py for the status). *)
 From Coq Require Import List ZArith QArith Bool Permutation Lia.
 From DD Require Import Model.Circuit Model.Query Model.Enumerate Proofs.Semantics Proofs.DetCert
-     Proofs.CountsA Proofs.QueryDefs
+     Proofs.CountsA Proofs.QueryDefs Proofs.Live
      Proofs.C07Defs Proofs.C07Valid Proofs.C07Urs Proofs.C07Indep
      Proofs.C07IdealDefs Proofs.C07Uniform Proofs.C07Align Proofs.C07Final
      Proofs.C07GeneralDefs Proofs.C07GeneralDist Proofs.C07GeneralAlign Proofs.C07GeneralUniform
@@ -41,12 +41,15 @@ Print Assumptions C07_contract_variant_is_sample_node.
    (2) Validity of sample_node for EVERY choice stream that respects the contract: exactly
        `amount` samples; each one is, up to the order of its literals, a member of
        filter (okA A) (enum i): a partial configuration of node i compatible with A.
-       temps_ok (what preprocess + execute_query leave in the temps; nothing is assumed about the
-       temps of true nodes) is a hypothesis here. *)
+       temps_ok (what preprocess + execute_query leave in the temps: the count under A on every
+       REACHABLE node - Reach = the root and the children of reachable nodes with a non-zero count,
+       Proofs/Live.v; nothing is assumed about the temps of true nodes, and nothing about the temps
+       inside dead branches, which may be stale since the core ignores dead branches, F22) is a
+       hypothesis here.  The node-level theorems are about reachable nodes. *)
 Theorem C07_sample_node_valid : forall (d : ddnnf) (A : cfg) (ts : list Z),
   idx_ok (circ d) = true -> temps_ok A (circ d) ts ->
   forall fuel amount i chs,
-  (i < length (circ d))%nat -> (i < fuel)%nat -> 0 <= amount ->
+  (i < length (circ d))%nat -> (i < fuel)%nat -> 0 <= amount -> Reach (circ d) i ->
   amount = 0 \/ (nth i (circ d) FalseN <> TrueN /\ nth i ts 0 <> 0) ->
   choices_ok d ts fuel amount i chs ->
   exists l rest, sample_node d ts fuel amount i chs = (l, rest, true) /\
@@ -147,7 +150,8 @@ Print Assumptions C07_uniform_ideal_single.
 (* the same at every node: outcomes = filter (okA A) (enum i) up to order, probability 1/countsA i *)
 Theorem C07_uniform_ideal_single_node : forall d A ts,
   idx_ok (circ d) = true -> temps_ok A (circ d) ts -> or_no_true (circ d) ->
-  forall i, (i < length (circ d))%nat -> forall f, (i < f)%nat -> nth i (countsA A (circ d)) 0 <> 0 ->
+  forall i, (i < length (circ d))%nat -> forall f, (i < f)%nat -> Reach (circ d) i ->
+  nth i (countsA A (circ d)) 0 <> 0 ->
   PermP (map e_out (joint1 d ts f i)) (filter (okA A) (nth i (enums (circ d)) [])) /\
   Forall (fun e => (e_pr e == 1 / inject_Z (nth i (countsA A (circ d)) 0%Z))%Q) (joint1 d ts f i).
 Proof. exact joint1_uniform. Qed.
@@ -193,7 +197,7 @@ Print Assumptions C07_ideal_streams_run.
 Theorem C07_uniform_ideal_marginal_node : forall d A ts SL,
   idx_ok (circ d) = true -> temps_ok A (circ d) ts -> or_no_true (circ d) ->
   splits_ideal (circ d) ts SL ->
-  forall i, (i < length (circ d))%nat -> forall f, (i < f)%nat -> forall a, 0 <= a ->
+  forall i, (i < length (circ d))%nat -> forall f, (i < f)%nat -> Reach (circ d) i -> forall a, 0 <= a ->
   nth i (countsA A (circ d)) 0 <> 0 ->
   (total (jointk d ts SL f a i) == 1)%Q /\
   forall j, (j < Z.to_nat a)%nat -> forall g, respects g ->
@@ -207,7 +211,7 @@ Print Assumptions C07_uniform_ideal_marginal_node.
    the stream is consumed exactly, both flags are true, the listed samples are returned *)
 Theorem C07_ideal_streams_run_general : forall d A ts SL,
   idx_ok (circ d) = true -> temps_ok A (circ d) ts -> splits_ideal (circ d) ts SL ->
-  forall i, (i < length (circ d))%nat -> forall f, (i < f)%nat -> forall a, 0 <= a ->
+  forall i, (i < length (circ d))%nat -> forall f, (i < f)%nat -> Reach (circ d) i -> forall a, 0 <= a ->
   a = 0 \/ nth i (countsA A (circ d)) 0 <> 0 ->
   forall r w, In (r, w) (jointk d ts SL f a i) ->
   forall rest, sample_node_c d ts f a i (fst r ++ rest) = (snd r, rest, true, true).
